@@ -7,9 +7,13 @@ _TYPE_TUS = [_P + 'cppSimpleType.cxx', _P + 'cppPointerType.cxx', _P + 'cppRefer
              'src/dtoolutil/filename.cxx']
 _ARR_TUS = [_P + 'cppArrayType.cxx', _P + 'cppExpression.cxx']
 _UNROLL_TUS = [_P + 'cppInstanceIdentifier.cxx']
+_MEMPTR_TUS = [_P + x for x in ('cppInstanceIdentifier.cxx', 'cppFunctionType.cxx', 'cppParameterList.cxx', 'cppInstance.cxx',
+                                'cppIdentifier.cxx', 'cppNameComponent.cxx', 'cppPointerType.cxx', 'cppSimpleType.cxx', 'cppType.cxx',
+                                'cppDeclaration.cxx', 'cppAttributeList.cxx', 'cppFile.cxx')] + ['src/dtoolutil/filename.cxx']
 _CUT = ['_ZN7CPPType8new_typeEPS_']
 # no static initialiser of the linked TUs is needed (the harness still calls __ll2c_global_ctors for the stream model)
-_SKIP = ['cppType.cxx', 'cppExpression.cxx', 'filename.cxx', 'cppSimpleType.cxx', 'cppInstanceIdentifier.cxx', 'cppArrayType.cxx',
+_SKIP = ['cppFunctionType.cxx', 'cppParameterList.cxx', 'cppInstance.cxx', 'cppIdentifier.cxx', 'cppNameComponent.cxx',
+         'cppType.cxx', 'cppExpression.cxx', 'filename.cxx', 'cppSimpleType.cxx', 'cppInstanceIdentifier.cxx', 'cppArrayType.cxx',
          'cppPointerType.cxx', 'cppReferenceType.cxx', 'cppConstType.cxx', 'cppDeclaration.cxx', 'cppAttributeList.cxx', 'cppFile.cxx']
 # CPPArrayType::output_instance builds "[N]" in a std::ostringstream: with -fno-inline its constructor, destructor and
 # str() stay calls into libstdc++ and are modelled as an opaque object (models/stream.c, models/noinline.c);
@@ -43,12 +47,27 @@ HARNESSES = [
     _h('c06_print_ptrarr', 'output_instance of pointers and references to arrays: int (*v)[2], int (&v)[2]',
        'the modifier lists [N] * and [N] & (pointer to array, reference to array) over int / unsigned long',
        _TYPE_TUS + _ARR_TUS, {'MAXLEN': 2, 'ALPHA': 4, 'ARRAYS': 1, 'PTRARR': 1}, None, _ARR),
+    _h('c06_print_abs', 'abstract declarators (no name, as for unnamed parameters): output_instance with an empty name, arrays incl. '
+       'pointer/reference to array', 'every valid modifier list of length <= 2 over {*, &, const, [N]} containing an array',
+       _TYPE_TUS + _ARR_TUS, {'MAXLEN': 2, 'ALPHA': 4, 'ARRAYS': 1, 'NONAME': 1}, None, _ARR),
+    _h('c06_print_typename', 'type names as the database prints them: output() of pointer/reference/const/array types',
+       'pointer and reference to array (thorough: every valid modifier list of length <= 2 over {*, &, const, [N]})',
+       _TYPE_TUS + _ARR_TUS, {'MAXLEN': 2, 'ALPHA': 4, 'ARRAYS': 1, 'PTRARR': 1, 'NONAME': 2}, {'MAXLEN': 2, 'ALPHA': 4, 'NONAME': 2}, _ARR),
+    _h('c06_print_constarr', 'const applied directly to an array type (CPPConstType over CPPArrayType, which the parser does not build '
+       'itself): const int v[2]', 'the modifier lists [N] const and [N] const * ... of length <= 2',
+       _TYPE_TUS + _ARR_TUS, {'MAXLEN': 2, 'ALPHA': 4, 'ARRAYS': 1, 'CONSTARR': 1}, None, _ARR),
     _h('c06_unroll_arr', 'unroll_type + output_instance for declarators with arrays (no pointer/reference to array)',
        'every valid modifier list of length <= 2 over {*, &, const, [N]} containing an array, given to unroll_type outermost first',
        _TYPE_TUS + _ARR_TUS + _UNROLL_TUS, {'MAXLEN': 2, 'ALPHA': 4, 'ARRAYS': 1, 'PTRARR': 0, 'USE_UNROLL': 1}, None, _ARR),
     _h('c06_unroll_ptr', 'CPPInstanceIdentifier::unroll_type builds the type from the declarator modifier list, then output_instance',
        'every valid modifier list of length <= 2 over {*, &, const}, given to unroll_type outermost first',
        _TYPE_TUS + _UNROLL_TUS, {'MAXLEN': 2, 'ALPHA': 3, 'USE_UNROLL': 1}),
+    dict(_h('c06_memptr', 'pointer-to-member-function declarators of two classes with the same signature, built by unroll_type '
+            '(IIT_scoped_pointer) WITH type uniquing and printed by output_instance',
+            'int (Reader::*r)(int) then int (Writer::*w)(int); CPPType::new_type modelled as "first registered type that is == '
+            '(real virtual is_equal), else register" over a table (the real std::set is ordered by heap addresses)',
+            _MEMPTR_TUS, {}, None, _ARR), src='c06_memptr.cxx', entry='harness_c06_memptr',
+         oracle='each printed declaration, blanks aside, is exactly the one written (class name and signature); the two types are distinct'),
 ] + [
     _h('c06_print_arr3_p%d' % k, 'thorough: array declarators of length <= 3, part %d of 4' % k,
        'every valid modifier list of length <= 3 over {*, &, const, [N]} containing an array but no pointer/reference to array '
